@@ -444,7 +444,9 @@ func (p *Printer) flushHeredocs() {
 		return
 	}
 	hdocs := p.pendingHdocs
-	p.pendingHdocs = p.pendingHdocs[:0]
+	// Start a new list rather than truncating this one, as a body may queue
+	// heredocs of its own, which must not overwrite the ones being printed.
+	p.pendingHdocs = nil
 	coms := p.pendingComments
 	p.pendingComments = nil
 	if len(coms) > 0 {
